@@ -90,8 +90,9 @@ impl<'u, 'de> serde::Deserializer<'de> for &'u mut URLEncodedDeserializer<'de> {
     /// when the visitor visits value of unkown key
     fn deserialize_ignored_any<V>(self, visitor: V) -> Result<V::Value, Self::Error>
     where V: serde::de::Visitor<'de> {
-        #[cfg(debug_assertions)] {
-            assert!(matches!(self.side, ParsingSide::Value));
+        if self.side != ParsingSide::Value {
+            /* e.g. a struct or a map as a field, or a scalar as the whole input */
+            return Err(serde::de::Error::custom("unsupported structure for this format"))
         }
         let _ = self.next_section();
 
@@ -103,8 +104,9 @@ impl<'u, 'de> serde::Deserializer<'de> for &'u mut URLEncodedDeserializer<'de> {
     #[inline(always)]
     fn deserialize_map<V>(self, visitor: V) -> Result<V::Value, Self::Error>
     where V: serde::de::Visitor<'de> {
-        #[cfg(debug_assertions)] {
-            assert!(self.side == ParsingSide::Key);
+        if self.side != ParsingSide::Key {
+            /* e.g. a struct or a map as a field, or a scalar as the whole input */
+            return Err(serde::de::Error::custom("unsupported structure for this format"))
         }
 
         visitor.visit_map(AmpersandSeparated::new(self))
@@ -138,9 +140,10 @@ impl<'u, 'de> serde::Deserializer<'de> for &'u mut URLEncodedDeserializer<'de> {
             Here we don't put
 
             ```
-            #[cfg(debug_assertions)] {
-                assert!(self.side == ParsingSide::Key);
-            }
+            if self.side != ParsingSide::Key {
+            /* e.g. a struct or a map as a field, or a scalar as the whole input */
+            return Err(serde::de::Error::custom("unsupported structure for this format"))
+        }
             ```
             because `deserialize_identifier` can be called by value-place enums
             like `enum Gender { Male, Female, Other }`.
@@ -252,8 +255,9 @@ impl<'u, 'de> serde::Deserializer<'de> for &'u mut URLEncodedDeserializer<'de> {
 
     fn deserialize_bytes<V>(self, visitor: V) -> Result<V::Value, Self::Error>
     where V: serde::de::Visitor<'de> {
-        #[cfg(debug_assertions)] {
-            assert!(self.side == ParsingSide::Value);
+        if self.side != ParsingSide::Value {
+            /* e.g. a struct or a map as a field, or a scalar as the whole input */
+            return Err(serde::de::Error::custom("unsupported structure for this format"))
         }
 
         match percent_decode(self.next_section()?) {
@@ -263,8 +267,9 @@ impl<'u, 'de> serde::Deserializer<'de> for &'u mut URLEncodedDeserializer<'de> {
     }
     fn deserialize_byte_buf<V>(self, visitor: V) -> Result<V::Value, Self::Error>
     where V: serde::de::Visitor<'de> {
-        #[cfg(debug_assertions)] {
-            assert!(self.side == ParsingSide::Value);
+        if self.side != ParsingSide::Value {
+            /* e.g. a struct or a map as a field, or a scalar as the whole input */
+            return Err(serde::de::Error::custom("unsupported structure for this format"))
         }
 
         self.deserialize_bytes(visitor)
@@ -272,8 +277,9 @@ impl<'u, 'de> serde::Deserializer<'de> for &'u mut URLEncodedDeserializer<'de> {
 
     fn deserialize_bool<V>(self, visitor: V) -> Result<V::Value, Self::Error>
     where V: serde::de::Visitor<'de> {
-        #[cfg(debug_assertions)] {
-            assert!(self.side == ParsingSide::Value);
+        if self.side != ParsingSide::Value {
+            /* e.g. a struct or a map as a field, or a scalar as the whole input */
+            return Err(serde::de::Error::custom("unsupported structure for this format"))
         }
 
         match &*percent_decode(self.next_section()?) {
@@ -288,8 +294,9 @@ impl<'u, 'de> serde::Deserializer<'de> for &'u mut URLEncodedDeserializer<'de> {
 
     fn deserialize_f32<V>(self, visitor: V) -> Result<V::Value, Self::Error>
     where V: serde::de::Visitor<'de> {
-        #[cfg(debug_assertions)] {
-            assert!(self.side == ParsingSide::Value);
+        if self.side != ParsingSide::Value {
+            /* e.g. a struct or a map as a field, or a scalar as the whole input */
+            return Err(serde::de::Error::custom("unsupported structure for this format"))
         }
 
         let section = &*percent_decode(self.next_section()?);
@@ -305,8 +312,9 @@ impl<'u, 'de> serde::Deserializer<'de> for &'u mut URLEncodedDeserializer<'de> {
     }
     fn deserialize_f64<V>(self, visitor: V) -> Result<V::Value, Self::Error>
     where V: serde::de::Visitor<'de> {
-        #[cfg(debug_assertions)] {
-            assert!(self.side == ParsingSide::Value);
+        if self.side != ParsingSide::Value {
+            /* e.g. a struct or a map as a field, or a scalar as the whole input */
+            return Err(serde::de::Error::custom("unsupported structure for this format"))
         }
 
         let section = &*percent_decode(self.next_section()?);
@@ -323,8 +331,9 @@ impl<'u, 'de> serde::Deserializer<'de> for &'u mut URLEncodedDeserializer<'de> {
 
     fn deserialize_i8<V>(self, visitor: V) -> Result<V::Value, Self::Error>
     where V: serde::de::Visitor<'de> {
-        #[cfg(debug_assertions)] {
-            assert!(self.side == ParsingSide::Value);
+        if self.side != ParsingSide::Value {
+            /* e.g. a struct or a map as a field, or a scalar as the whole input */
+            return Err(serde::de::Error::custom("unsupported structure for this format"))
         }
 
         let section = &*percent_decode(self.next_section()?);
@@ -340,8 +349,9 @@ impl<'u, 'de> serde::Deserializer<'de> for &'u mut URLEncodedDeserializer<'de> {
     }
     fn deserialize_i16<V>(self, visitor: V) -> Result<V::Value, Self::Error>
     where V: serde::de::Visitor<'de> {
-        #[cfg(debug_assertions)] {
-            assert!(self.side == ParsingSide::Value);
+        if self.side != ParsingSide::Value {
+            /* e.g. a struct or a map as a field, or a scalar as the whole input */
+            return Err(serde::de::Error::custom("unsupported structure for this format"))
         }
 
         let section = &*percent_decode(self.next_section()?);
@@ -357,8 +367,9 @@ impl<'u, 'de> serde::Deserializer<'de> for &'u mut URLEncodedDeserializer<'de> {
     }
     fn deserialize_i32<V>(self, visitor: V) -> Result<V::Value, Self::Error>
     where V: serde::de::Visitor<'de> {
-        #[cfg(debug_assertions)] {
-            assert!(self.side == ParsingSide::Value);
+        if self.side != ParsingSide::Value {
+            /* e.g. a struct or a map as a field, or a scalar as the whole input */
+            return Err(serde::de::Error::custom("unsupported structure for this format"))
         }
 
         let section = &*percent_decode(self.next_section()?);
@@ -374,8 +385,9 @@ impl<'u, 'de> serde::Deserializer<'de> for &'u mut URLEncodedDeserializer<'de> {
     }
     fn deserialize_i64<V>(self, visitor: V) -> Result<V::Value, Self::Error>
     where V: serde::de::Visitor<'de> {
-        #[cfg(debug_assertions)] {
-            assert!(self.side == ParsingSide::Value);
+        if self.side != ParsingSide::Value {
+            /* e.g. a struct or a map as a field, or a scalar as the whole input */
+            return Err(serde::de::Error::custom("unsupported structure for this format"))
         }
 
         let section = &*percent_decode(self.next_section()?);
@@ -392,8 +404,9 @@ impl<'u, 'de> serde::Deserializer<'de> for &'u mut URLEncodedDeserializer<'de> {
 
     fn deserialize_u8<V>(self, visitor: V) -> Result<V::Value, Self::Error>
     where V: serde::de::Visitor<'de> {
-        #[cfg(debug_assertions)] {
-            assert!(self.side == ParsingSide::Value);
+        if self.side != ParsingSide::Value {
+            /* e.g. a struct or a map as a field, or a scalar as the whole input */
+            return Err(serde::de::Error::custom("unsupported structure for this format"))
         }
 
         let section = &*percent_decode(self.next_section()?);
@@ -409,8 +422,9 @@ impl<'u, 'de> serde::Deserializer<'de> for &'u mut URLEncodedDeserializer<'de> {
     }
     fn deserialize_u16<V>(self, visitor: V) -> Result<V::Value, Self::Error>
     where V: serde::de::Visitor<'de> {
-        #[cfg(debug_assertions)] {
-            assert!(self.side == ParsingSide::Value);
+        if self.side != ParsingSide::Value {
+            /* e.g. a struct or a map as a field, or a scalar as the whole input */
+            return Err(serde::de::Error::custom("unsupported structure for this format"))
         }
 
         let section = &*percent_decode(self.next_section()?);
@@ -426,8 +440,9 @@ impl<'u, 'de> serde::Deserializer<'de> for &'u mut URLEncodedDeserializer<'de> {
     }
     fn deserialize_u32<V>(self, visitor: V) -> Result<V::Value, Self::Error>
     where V: serde::de::Visitor<'de> {
-        #[cfg(debug_assertions)] {
-            assert!(self.side == ParsingSide::Value);
+        if self.side != ParsingSide::Value {
+            /* e.g. a struct or a map as a field, or a scalar as the whole input */
+            return Err(serde::de::Error::custom("unsupported structure for this format"))
         }
 
         let section = &*percent_decode(self.next_section()?);
@@ -443,8 +458,9 @@ impl<'u, 'de> serde::Deserializer<'de> for &'u mut URLEncodedDeserializer<'de> {
     }
     fn deserialize_u64<V>(self, visitor: V) -> Result<V::Value, Self::Error>
     where V: serde::de::Visitor<'de> {
-        #[cfg(debug_assertions)] {
-            assert!(self.side == ParsingSide::Value);
+        if self.side != ParsingSide::Value {
+            /* e.g. a struct or a map as a field, or a scalar as the whole input */
+            return Err(serde::de::Error::custom("unsupported structure for this format"))
         }
 
         let section = &*percent_decode(self.next_section()?);
